@@ -41,7 +41,11 @@ var (
 
 func genPattern(t *rapid.T) string {
 	w := func() string { return rapid.SampledFrom(c11Words).Draw(t, "word") }
-	switch rapid.IntRange(0, 25).Draw(t, "pattern_kind") {
+	switch rapid.IntRange(0, 27).Draw(t, "pattern_kind") {
+	case 26:
+		return ".* " + w() // whatever comes first, the line ends in the word
+	case 27:
+		return "(.* )?" + w() + "( .*)?" // the word anywhere in the line
 	case 18:
 		return w() + rapid.SampledFrom([]string{"{2}", "{1,2}", "{0,}", "{1}"}).Draw(t, "count") // counted repetition of the last letter
 	case 19:
@@ -177,6 +181,17 @@ func genC11Request(t *rapid.T, users []string) c11Req {
 		for i := 0; i < n; i++ {
 			sep := rapid.SampledFrom([]string{"=", "=", "=", "=", "*"}).Draw(t, "cmd_arg_sep")
 			cargs = append(cargs, "cmd-arg"+sep+rapid.SampledFrom(append([]string{";", "reload", "|", "a b", "", "terminal;reload", "<cr>", "detail=all", "a*b", "x=y*z", "force<cr>", "reload<CR>", "<cr><cr>", "999", "99", "xx", "xxx", "abab", "9{3}", "x{2,3}", "TERMINAL", "terminall", "versio", "123"}, c11Words...)).Draw(t, "cmd_arg_val"))
+		}
+		if rapid.IntRange(0, 11).Draw(t, "long_command_line") == 0 {
+			// a long command line: dozens of long arguments in front of the ones drawn above (several
+			// thousand octets once joined; what decides is at the end)
+			var long []string
+			k := rapid.IntRange(20, 60).Draw(t, "long_nargs")
+			l := rapid.IntRange(100, 240).Draw(t, "long_arglen")
+			for i := 0; i < k; i++ {
+				long = append(long, "cmd-arg=h"+strings.Repeat(string(rune('a'+i%26)), l))
+			}
+			cargs = append(long, cargs...)
 		}
 		switch rapid.IntRange(0, 4).Draw(t, "line_end") {
 		case 0:
